@@ -365,6 +365,11 @@ func cursorDomain(n int) []Cursor {
 		Cursor{Class: "garbage-base64", Value: sp(base64.StdEncoding.EncodeToString([]byte("foo:bar"))), Positions: []int{-1}, MayError: true},
 		Cursor{Class: "not-base64", Value: sp("!*not base64*!"), Positions: []int{-1}, MayError: true},
 		Cursor{Class: "empty", Value: sp(""), Positions: []int{-1}, MayError: true},
+		// well-formed cursors for positions no edge ever carries
+		Cursor{Class: "negative-offset", Value: sp(base64.StdEncoding.EncodeToString([]byte("cursor:-1"))), Positions: []int{-1}, MayError: true},
+		Cursor{Class: "negative-offset", Value: sp(base64.StdEncoding.EncodeToString([]byte("cursor:-2"))), Positions: []int{-1}, MayError: true},
+		Cursor{Class: "negative-offset", Value: sp(base64.StdEncoding.EncodeToString([]byte("cursor:-1000"))), Positions: []int{-1}, MayError: true},
+		Cursor{Class: "huge-offset", Value: sp(base64.StdEncoding.EncodeToString([]byte("cursor:9223372036854775807"))), Positions: []int{-1}, MayError: true},
 	)
 	// another spelling of a valid offset (unpadded base64 of the same text, and a zero-padded number)
 	if n > 0 {
